@@ -1159,9 +1159,27 @@ impl Engine for Sched {
         gen_case(rng, tier, focus)
     }
 
-    fn blame(&self, _req: &str, _impl_r: &str, _model_r: &str) -> Vec<&'static str> {
-        // Concrete violations are reported by the monitors; a bare disagreement is a broken correspondence.
-        vec![]
+    fn blame(&self, req: &str, impl_r: &str, model_r: &str) -> Vec<&'static str> {
+        // Concrete violations are reported by the monitors; a bare disagreement is a broken correspondence — with two
+        // exceptions, where the statement itself fixes the answer:
+        let mut v = Vec::new();
+        let now = |s: &str| s.split_whitespace().find(|w| w.starts_with("now=")).map(|w| w.to_string());
+        let head = |s: &str| s.split_whitespace().next().unwrap_or("").to_string();
+        // (1) the simulation time after a call that both sides accept: it is the start time after `init`, the deadline
+        //     reached after a step (C01; the time that every reader sees, C15)
+        if (req == "init" || req == "step" || req.starts_with("until")) && head(impl_r) == "ok" && head(model_r) == "ok" {
+            if let (Some(a), Some(b)) = (now(impl_r), now(model_r)) {
+                if a != b {
+                    v.push("C01");
+                    v.push("C15");
+                }
+            }
+        }
+        // (2) OutOfSync on one side only: a lag above the configured tolerance fails the step, a lag below does not (C18)
+        if (head(impl_r) == "out-of-sync") != (head(model_r) == "out-of-sync") {
+            v.push("C18");
+        }
+        v
     }
 
     fn run_impl(&self, lines: &[String]) -> Outcome {
